@@ -264,8 +264,11 @@ def gen_plan(seed: int, mode: str, scale: int = 1):
     scale > 1 (thorough tier, a third of the seeds): longer histories, more projects."""
     rng = Rng(seed, "workload", mode)
     cfg = Rng(seed, "swarm", mode)
-    if scale > 1 and not Rng(seed, "scale").chance(0.34):
-        scale = 1
+    if scale > 1:
+        if Rng(seed, "long").chance(0.04):
+            scale = 8  # a long-lived process: hundreds of operations (counters, bounded caches, "seen" sets)
+        elif not Rng(seed, "scale").chance(0.34):
+            scale = 1
     img = {"dirs": ["/w"], "files": {}, "symlinks": {}, "hardlinks": {}, "cwd": "/w"}
     projects = []
     nproj = (cfg.randint(2, 5) if mode == "c09" else cfg.randint(1, 3)) + (scale - 1)
@@ -289,6 +292,17 @@ def gen_plan(seed: int, mode: str, scale: int = 1):
         else:
             base = corpus_project(pr.sub("b"), name) if pr.chance(0.6) else generated_project(pr.sub("b"), name)
             p = mutated_project(pr, name, base)
+        if mode == "c18" and projects and cfg.chance(0.3) and kind != "mutated":
+            # two variants ("branches") of the same project built in one process: same file
+            # names, same definition names at the same positions, small differences
+            q = projects[-1]
+            files = dict(q.files)
+            er = pr.sub("variant")
+            for _ in range(er.randint(1, 2)):
+                tgt = er.choice(sorted(files))
+                files[tgt] = compatible_edit(er, files[tgt])
+            p = Project(name, files, q.main, "variant-of:" + q.origin)
+            p.extras = q.extras
         if same_names and projects and rng.chance(0.5) and mode == "c18":
             # another project with the same main file name (and often the same proto /
             # message names) but different content: memo keyed by name would confuse them
